@@ -3,6 +3,7 @@ C13 — tagged unions dispatch on the tag alone (default engine).
 -/
 import DW.Generated.Tables
 import DW.Model.Load
+import DW.Model.LoadV1
 
 namespace DW.Props.C13
 open DW
@@ -128,5 +129,159 @@ theorem C13_dump_tag (eff : MetaCfg) (t : S) (body : List (DVal × DVal)) (ht : 
 
 /-- the default tag key is the documented `__tag__` -/
 theorem C13_default_tag_key : Generated.tagKey = "__tag__" := by decide
+
+/-! ### v1 engine
+
+The v1 Union helper reads `v1[tag_key]` first (when at least one member dataclass carries a tag) and compares it with each
+member's tag in turn; only a value without the tag key falls through to the exact-type / try-parse passes. -/
+
+/-- v1 dispatch depends on the tag alone: if exactly one member class answers to tag `tg` — wherever it stands in the Union,
+whatever the other members' fields look like — the value is built by *that* class's function. -/
+theorem v1Tagged_dispatch (std : Std) (cfg : Option MetaCfg) (tg : S) (pre post : List Ty)
+    (ci : ClassInfo) (ftys : List (S × Ty)) (o : JVal)
+    (hk : memberTag cfg ci = some tg)
+    (hpre : ∀ t ∈ pre, tagOf cfg t ≠ some tg) (hpost : ∀ t ∈ post, tagOf cfg t ≠ some tg) :
+    v1Tagged std cfg tg (pre ++ .cls ci ftys :: post) o
+      = v1ClassWith (fun f v => v1Field std cfg f v ftys) (effMeta ci.cmeta cfg) ci o := by
+  induction pre with
+  | nil =>
+    simp only [List.nil_append, v1Tagged]
+    have : (post.any (tyHasTag cfg tg)) = false := by
+      rw [List.any_eq_false]
+      intro t' ht'
+      have := hpost t' ht'
+      cases t' <;> simp [tagOf, tyHasTag] at this ⊢
+      exact this
+    rw [this]
+    simp [hk]
+  | cons t r ih =>
+    have hr : ∀ t ∈ r, tagOf cfg t ≠ some tg := fun t' ht' => hpre t' (by simp [ht'])
+    have ht := hpre t (by simp)
+    cases t <;> simp only [List.cons_append, v1Tagged] <;> try exact ih hr
+    case cls ci' ftys' =>
+      simp [tagOf] at ht
+      simp [ht]
+      exact ih hr
+
+/-- C13 dispatch for the v1 engine, end to end at a Union annotation: a dict whose tag key holds K's tag is loaded as K, for
+every position of K among the Union arguments and whatever scalar / container / other dataclass members stand next to it. -/
+theorem C13_v1_dispatch (std : Std) (cfg : Option MetaCfg) (tg : S) (pre post : List Ty)
+    (ci : ClassInfo) (ftys : List (S × Ty)) (kvs : List (S × JVal))
+    (hk : memberTag cfg ci = some tg)
+    (hpre : ∀ t ∈ pre, tagOf cfg t ≠ some tg) (hpost : ∀ t ∈ post, tagOf cfg t ≠ some tg)
+    (htag : kvs.find? (fun kv => kv.1 == (cfg.bind (·.tagKey)).getD Generated.tagKey.toList)
+              = some ((cfg.bind (·.tagKey)).getD Generated.tagKey.toList, .str tg)) :
+    loadV1 std cfg (.union (pre ++ .cls ci ftys :: post)) (.dict kvs)
+      = v1ClassWith (fun f v => v1Field std cfg f v ftys) (effMeta ci.cmeta cfg) ci (.dict kvs) := by
+  simp only [loadV1, JVal.kind]
+  have hk' : (JKind.dict == JKind.null) = false := by decide
+  simp only [hk', Bool.false_and, Bool.false_eq_true, ↓reduceIte]
+  have htagged : v1AnyTagged cfg (pre ++ .cls ci ftys :: post) = true := by
+    unfold v1AnyTagged
+    apply List.any_eq_true.mpr
+    exact ⟨.cls ci ftys, by simp, by simp [isTaggedMember, hk]⟩
+  simp only [htagged, htag, ↓reduceIte, Option.map_some]
+  exact v1Tagged_dispatch std cfg tg pre post ci ftys (.dict kvs) hk hpre hpost
+
+theorem v1Tagged_unassigned (std : Std) (cfg : Option MetaCfg) (tg : S) (ts : List Ty) (o : JVal)
+    (h : ∀ t ∈ ts, tagOf cfg t ≠ some tg) : v1Tagged std cfg tg ts o = .error (.parse none none) := by
+  induction ts with
+  | nil => rfl
+  | cons t r ih =>
+    have hr : ∀ t ∈ r, tagOf cfg t ≠ some tg := fun t' ht' => h t' (by simp [ht'])
+    have ht := h t (by simp)
+    cases t <;> simp only [v1Tagged] <;> try exact ih hr
+    case cls ci' ftys' =>
+      simp [tagOf] at ht
+      simp [ht]
+      exact ih hr
+
+/-- an unassigned tag is rejected with ParseError — no member is tried structurally, however well the dict would fit one -/
+theorem C13_v1_bad_tag (std : Std) (cfg : Option MetaCfg) (tg : S) (ts : List Ty) (kvs : List (S × JVal))
+    (h : ∀ t ∈ ts, tagOf cfg t ≠ some tg) (hany : v1AnyTagged cfg ts = true)
+    (htag : kvs.find? (fun kv => kv.1 == (cfg.bind (·.tagKey)).getD Generated.tagKey.toList)
+              = some ((cfg.bind (·.tagKey)).getD Generated.tagKey.toList, .str tg)) :
+    loadV1 std cfg (.union ts) (.dict kvs) = .error (.parse none none) := by
+  simp only [loadV1, JVal.kind]
+  have hk' : (JKind.dict == JKind.null) = false := by decide
+  simp only [hk', Bool.false_and, Bool.false_eq_true, ↓reduceIte]
+  simp only [hany, htag, ↓reduceIte, Option.map_some]
+  exact v1Tagged_unassigned std cfg tg ts _ h
+
+/-- every member of the Union is a tagged dataclass (or None) -/
+def AllTagged (cfg : Option MetaCfg) (ts : List Ty) : Prop :=
+  ∀ t ∈ ts, t = .none ∨ ∃ ci ftys, t = .cls ci ftys ∧ (memberTag cfg ci).isSome = true
+
+theorem v1UnionExact_none (std : Std) (cfg : Option MetaCfg) (ts : List Ty) (o : JVal) (h : AllTagged cfg ts) :
+    v1UnionExact std cfg ts o = none := by
+  induction ts with
+  | nil => rfl
+  | cons t r ih =>
+    have hr : AllTagged cfg r := fun t' ht' => h t' (by simp [ht'])
+    rcases h t (by simp) with rfl | ⟨ci, ftys, rfl, htg⟩
+    · simp only [v1UnionExact]; exact ih hr
+    · simp only [v1UnionExact, htg, ↓reduceIte]; exact ih hr
+
+theorem v1UnionCoerce_none (std : Std) (cfg : Option MetaCfg) (ts : List Ty) (o : JVal) (h : AllTagged cfg ts) :
+    v1UnionCoerce std cfg ts o = none := by
+  induction ts with
+  | nil => rfl
+  | cons t r ih =>
+    have hr : AllTagged cfg r := fun t' ht' => h t' (by simp [ht'])
+    rcases h t (by simp) with rfl | ⟨ci, ftys, rfl, _⟩
+    · simp only [v1UnionCoerce, isSimpleTy]; simp; exact ih hr
+    · simp only [v1UnionCoerce, isSimpleTy]; simp; exact ih hr
+
+/-- a dict without the tag key, offered to a Union of tagged dataclasses only, is rejected with ParseError -/
+theorem C13_v1_missing_tag (std : Std) (cfg : Option MetaCfg) (ts : List Ty) (kvs : List (S × JVal))
+    (h : AllTagged cfg ts)
+    (htag : kvs.find? (fun kv => kv.1 == (cfg.bind (·.tagKey)).getD Generated.tagKey.toList) = none) :
+    loadV1 std cfg (.union ts) (.dict kvs) = .error (.parse none none) := by
+  simp only [loadV1, JVal.kind]
+  have hk' : (JKind.dict == JKind.null) = false := by decide
+  simp only [hk', Bool.false_and, Bool.false_eq_true, ↓reduceIte, htag, Option.map_none]
+  have : (if v1AnyTagged cfg ts = true then (none : Option JVal) else none) = none := by split <;> rfl
+  simp only [this, v1UnionExact_none std cfg ts _ h, v1UnionCoerce_none std cfg ts _ h, perr]
+
+/-- the tag key of a tagged class is a *known* key of its v1 function: it is neither reported by UnknownKeysError nor captured
+by CatchAll (both only ever see `v1Extra`, the pairs with unknown keys) -/
+theorem C13_v1_tag_key_known (eff : MetaCfg) (ci : ClassInfo) (t : S) (ht : eff.tag = some t)
+    (hnf : v1TagKey eff ∉ initFieldNames ci) (kvs : List (S × JVal)) :
+    v1TagKey eff ∈ v1KnownKeys eff ci ∧ ∀ kv ∈ v1Extra eff ci kvs, kv.1 ≠ v1TagKey eff := by
+  have hnc : (initFieldNames ci).contains (v1TagKey eff) = false := by
+    cases hc : (initFieldNames ci).contains (v1TagKey eff) with
+    | false => rfl
+    | true => exact absurd (List.contains_iff_mem.mp hc) hnf
+  have hx : v1ExpectTag eff ci = true := by
+    unfold v1ExpectTag
+    rw [ht, hnc]
+    rfl
+  have hmem : v1TagKey eff ∈ v1KnownKeys eff ci := by simp [v1KnownKeys, hx]
+  refine ⟨hmem, ?_⟩
+  intro kv hkv heq
+  have hp := (List.mem_filter.mp hkv).2
+  rw [heq, List.contains_iff_mem.mpr hmem] at hp
+  simp at hp
+
+/-- an attribute that merely *mirrors* the tag (an `init=False` field named like the tag key) does not switch the whitelisting
+off: only constructor fields count -/
+theorem C13_v1_noninit_mirror_ignored (eff : MetaCfg) (ci : ClassInfo)
+    (h : ∀ f ∈ ci.fields, f.name = v1TagKey eff → f.init = false) : v1TagKey eff ∉ initFieldNames ci := by
+  intro hm
+  unfold initFieldNames at hm
+  obtain ⟨f, hf, hn⟩ := List.mem_map.mp hm
+  have hfi := List.mem_filter.mp hf
+  have := h f hfi.1 hn
+  simp [this] at hfi
+
+/-- Witness (unchanged code): the tag key is counted inside the `if cls_init_fields:` block only. A tagged class *without* any
+constructor field therefore never counts its tag key: under RAISE a document holding just the tag is rejected — with an empty
+list of unknown keys — although the tag key is whitelisted. -/
+theorem C13_v1_tag_only_class_witness :
+    let ci : ClassInfo := { name := ['B'], fields := [{ name := ['n'], init := false, dflt := some (.lit (.int 3)) }] }
+    let eff : MetaCfg := { v1 := some true, v1OnUnknown := some .raise, tag := some ['b'], tagKey := some ['t'] }
+    v1TagKey eff ∈ v1KnownKeys eff ci ∧
+    v1ClassWith (fun _ v => pure v.toPy) eff ci (.dict [(['t'], .str ['b'])]) = .error (.unknownKeys ['B'] []) := by
+  refine ⟨by decide, by rfl⟩
 
 end DW.Props.C13
